@@ -14,10 +14,111 @@ use crate::simfs::SimFs;
 use crate::watch;
 
 pub fn plan(tier: &str) -> u64 {
-    match tier {
-        "quick" => 320,
-        _ => 10_000,
+    n_single(tier) + n_concurrent(tier)
+}
+
+fn n_single(tier: &str) -> u64 {
+    if tier == "quick" {
+        320
+    } else {
+        10_000
     }
+}
+
+fn n_concurrent(tier: &str) -> u64 {
+    if tier == "quick" {
+        8
+    } else {
+        80
+    }
+}
+
+/// Eight tables with different contents are opened and read by eight threads at the same time,
+/// over and over, through one shared block cache (fill_cache on): every table has a data block at
+/// offset 0, so only the per-open cache partition keeps their blocks apart. Every scan, seek and
+/// lookup must show the thread's own table.
+fn case_concurrent_opens(out: &mut CaseOut, seed: u64, idx: u64) {
+    let mut rng = Rng::new(mix(&[seed, idx], "c13-conc"));
+    let fs = SimFs::from_image(&dbutil::skeleton_image("/c13"));
+    let block = *rng.pick(&[256usize, 1024, 4096]);
+    let cfg = Config { memtable: 4096, file: 1 << 20, block, reuse: true };
+    let options = dbutil::options(fs.as_provider(), "/c13", &cfg);
+    let n_tables = 8u64;
+    let mut tables: Vec<Vec<Entry>> = vec![];
+    for t in 0..n_tables {
+        let mut entries: Vec<Entry> = vec![];
+        for i in 0..rng.range(20, 120) {
+            let key = format!("key{i:04}").into_bytes();
+            entries.push((key, 1000 + i, Operation::Put, format!("table{t}-value-{i}-{}", "p".repeat(rng.range(0, 60) as usize)).into_bytes()));
+        }
+        if let Err(e) = table::build(&options, 100 + t, &entries) {
+            out.violate("C13/build-failed", json!({"error": e}));
+            return;
+        }
+        tables.push(entries);
+    }
+    let rounds = 150;
+    let barrier = std::sync::Arc::new(std::sync::Barrier::new(n_tables as usize));
+    let problems: std::sync::Arc<parking_lot::Mutex<Vec<serde_json::Value>>> = Default::default();
+    let mut handles = vec![];
+    for (t, entries) in tables.into_iter().enumerate() {
+        let (options, barrier, problems) = (options.clone(), std::sync::Arc::clone(&barrier), std::sync::Arc::clone(&problems));
+        handles.push(std::thread::Builder::new().name(format!("c13-opener-{t}")).spawn(move || {
+            let mut checked = 0u64;
+            for round in 0..rounds {
+                if round == 0 {
+                    barrier.wait();
+                }
+                if !problems.lock().is_empty() {
+                    return checked;
+                }
+                watch::tick();
+                let reader = match table::open(&options, 100 + t as u64) {
+                    Ok(r) => r,
+                    Err(e) => {
+                        problems.lock().push(json!({"table": t, "round": round, "what": "open failed", "error": e}));
+                        return checked;
+                    }
+                };
+                let mut cur = reader.cursor(true);
+                let mut got = vec![];
+                if cur.seek_to_first().is_ok() {
+                    while cur.is_valid() && got.len() <= entries.len() + 1 {
+                        got.push(cur.current().unwrap());
+                        cur.next();
+                    }
+                }
+                let same = got.len() == entries.len() && got.iter().zip(entries.iter()).all(|((k, v), e)| k.user_key == e.0 && *v == e.3);
+                if !same {
+                    let first = got.iter().zip(entries.iter()).find(|((k, v), e)| k.user_key != e.0 || *v != e.3).map(|((k, v), e)| format!("{}={} instead of {}={}", show(&k.user_key), show(&v[..v.len().min(24)]), show(&e.0), show(&e.3[..e.3.len().min(24)])));
+                    problems.lock().push(json!({"table": t, "round": round, "what": "forward scan shows other contents", "entries": entries.len(), "got": got.len(), "first_difference": first}));
+                    return checked;
+                }
+                let probe = &entries[round as usize % entries.len()];
+                match reader.get(&probe.0, probe.1, true) {
+                    Lookup::Value(v) if v == probe.3 => {}
+                    other => {
+                        problems.lock().push(json!({"table": t, "round": round, "what": "point lookup shows other contents", "key": show(&probe.0), "got": format!("{other:?}").chars().take(80).collect::<String>()}));
+                        return checked;
+                    }
+                }
+                checked += 1;
+            }
+            checked
+        }).unwrap());
+    }
+    let mut total = 0u64;
+    for h in handles {
+        total += h.join().unwrap_or(0);
+    }
+    out.add("concurrent_open_rounds", total);
+    let ctx = json!({"family": "concurrent-opens", "tables": n_tables, "max_block_size": block, "rounds_per_thread": rounds});
+    for p in problems.lock().drain(..).take(3) {
+        out.violate("C13/concurrent-opens/table-shows-another-tables-blocks", json!({"ctx": ctx, "detail": p}));
+    }
+    out.nontrivial(format!("concurrent-opens/block{block}"));
+    out.nontrivial(format!("concurrent-opens/rounds{}", (total / 200).min(6)));
+    out.sample = Some(ctx);
 }
 
 pub struct TableSpec {
@@ -362,6 +463,10 @@ pub fn check_table(out: &mut CaseOut, rng: &mut Rng, spec: &TableSpec, thorough:
 
 pub fn run_case(tier: &str, seed: u64, idx: u64) -> CaseOut {
     let mut out = CaseOut::new();
+    if idx >= n_single(tier) {
+        case_concurrent_opens(&mut out, seed, idx - n_single(tier));
+        return out;
+    }
     let mut rng = Rng::new(mix(&[seed, idx], "c13"));
     let spec = gen_table(&mut rng, idx);
     check_table(&mut out, &mut rng, &spec, tier != "quick");
